@@ -20,9 +20,14 @@ def sh(cmd, cwd=None, env=None):
 
 
 def main(argv):
+    wave = ""
+    if argv and argv[0] == "--wave2":
+        wave = "w2-"
+        argv = argv[1:]
     pid = argv[0]
-    ks = argv[1:] or ["1", "2"]
-    src = f"/tmp/seed/{pid}"
+    ks = argv[1:] or (["1", "2", "3"] if wave else ["1", "2"])
+    src = f"/tmp/seed2/{pid}" if wave else f"/tmp/seed/{pid}"
+    wtroot = "/tmp/wt2" if wave else "/tmp/wt"
     for k in ks:
         patch, demo = f"{src}/patch{k}.diff", f"{src}/demo{k}.py"
         if not (os.path.exists(patch) and os.path.exists(demo)):
@@ -34,7 +39,7 @@ def main(argv):
             sh(f"git -C /repo worktree add -q --detach {wt} HEAD")
             env = dict(os.environ, PYTHONPATH=os.path.join(wt, "src"), PYTHONDONTWRITEBYTECODE="1")
             # demos may hard-code their author's worktree path on sys.path: neutralise by copying with a substitution
-            text = open(demo).read().replace(f"/tmp/wt/{pid}/src", os.path.join(wt, "src")).replace(f"/tmp/wt/{pid}", wt)
+            text = open(demo).read().replace(f"{wtroot}/{pid}/src", os.path.join(wt, "src")).replace(f"{wtroot}/{pid}", wt)
             d2 = os.path.join(tmp, "demo.py")
             open(d2, "w").write(text)
             rc0, o0 = sh(f"{PY} {d2}", cwd=tmp, env=env)
@@ -52,10 +57,10 @@ def main(argv):
                 print("   unpatched output:", o0[-300:].strip())
                 print("   patched output:", o1[-300:].strip())
                 continue
-            dst = f"/verif/seeded/{pid}-{k}"
+            dst = f"/verif/seeded/{pid}-{wave}{k}"
             os.makedirs(dst, exist_ok=True)
             shutil.copy(patch, os.path.join(dst, "patch.diff"))
-            open(os.path.join(dst, "demo.py"), "w").write(open(demo).read().replace(f"/tmp/wt/{pid}/src", "/repo/src").replace(f"/tmp/wt/{pid}", "/repo"))
+            open(os.path.join(dst, "demo.py"), "w").write(open(demo).read().replace(f"{wtroot}/{pid}/src", "/repo/src").replace(f"{wtroot}/{pid}", "/repo"))
             notes = open(f"{src}/notes.md").read() if os.path.exists(f"{src}/notes.md") else ""
             open(os.path.join(dst, "notes.md"), "w").write(notes)
             meta = {"property": pid, "origin": f"independent sub-agent given only the text of {pid} and a scratch worktree",
